@@ -24,7 +24,7 @@ type c16 struct{}
 func init() { fw.Register(c16{}) }
 
 var c16Cmds = []string{"view", "view-raw", "diff", "copy", "sum", "sum-copy", "sum-diff", "generate"}
-var c16Faults = []string{"none", "none", "textout-missing-dir", "textout-is-dir", "textout-unwritable", "textout-dev-full", "source-missing", "source-garbage", "source-truncated", "dest-readonly-dir", "dest-parent-is-file", "layout-mismatch", "dest-missing", "empty-sources-dest-absent", "dest-write-fails", "remote-no-match", "item-matches-non-directories", "many-slow-sources"}
+var c16Faults = []string{"none", "none", "textout-missing-dir", "textout-is-dir", "textout-unwritable", "textout-dev-full", "source-missing", "source-garbage", "source-truncated", "dest-readonly-dir", "dest-parent-is-file", "layout-mismatch", "dest-missing", "empty-sources-dest-absent", "dest-write-fails", "remote-no-match", "item-matches-non-directories", "many-slow-sources", "method-not-storable", "source-count-beyond-a-page", "glob-many-files"}
 var c16Archs = []string{"all", "first", "last", "n", "-2"}
 var c16Windows = []string{"default", "past-inside", "future", "older-than-finest", "older-than-all", "degenerate"}
 var c16TextOuts = []string{"file", "", "-"}
@@ -42,7 +42,7 @@ func (c16) Meta() fw.Meta {
 			"the harness runs as root and drops the child to uid 65534 for the permission faults; scratch directories are made world-traversable for those cases",
 			"point-line counts are only compared when the second did not change across the process",
 		},
-		Obligations: []string{"invocations", "success_effect_checked", "fault_reported", "textout_file_checked", "absent_series_invocations", "out_of_range_archive_reported", "diff_missing_side_exit1", "uid_dropped_runs", "two_item_fault_runs", "created_with_nothing_to_copy_runs", "destination_write_failures_injected", "remote_no_match_runs", "item_matches_non_directories_runs", "many_slow_sources_runs"},
+		Obligations: []string{"invocations", "success_effect_checked", "fault_reported", "textout_file_checked", "absent_series_invocations", "out_of_range_archive_reported", "diff_missing_side_exit1", "uid_dropped_runs", "two_item_fault_runs", "created_with_nothing_to_copy_runs", "destination_write_failures_injected", "remote_no_match_runs", "item_matches_non_directories_runs", "many_slow_sources_runs", "method_not_storable_runs", "source_count_beyond_a_page_runs", "glob_copies_over_many_files"},
 		Workers:     12,
 		Level:       "fault_enumeration",
 	}
@@ -188,6 +188,7 @@ func (c16) Run(c *fw.Ctx) {
 	uid := uint32(0)
 	expectFail := ""
 	straceLog := ""
+	globMany := false
 	switch fault {
 	case "textout-missing-dir":
 		toFile = filepath.Join(dir, "no", "such", "dir", "text.out")
@@ -329,6 +330,54 @@ func (c16) Run(c *fw.Ctx) {
 			}()
 			c.Count("many_slow_sources_runs", 1)
 		}
+	case "method-not-storable":
+		// a header (of the destination where the command has one, else of the source) naming aggregation method 7 or 8:
+		// such a file cannot be worked on - an error, not a crash once an aggregate has to be computed
+		victimFile := filepath.Join(srcBase, item, "a.wsp")
+		switch cmdName {
+		case "copy", "diff":
+			victimFile = destFile
+		case "sum-copy", "sum-diff":
+			victimFile = sumDest
+		}
+		if cmdName != "generate" {
+			if img := readFileOrNil(victimFile); len(img) > 4 {
+				img[3] = byte(7 + r.Intn(2))
+				ioutil.WriteFile(victimFile, img, 0644)
+				expectFail = "a header names an aggregation method that cannot be stored"
+				c.Count("method_not_storable_runs", 1)
+			}
+		}
+	case "source-count-beyond-a-page":
+		// a source whose archive-count field says 350-1000 (method and xFilesFactor intact, file long enough for such a
+		// header): the header would not fit the first page
+		if hasSource {
+			p := filepath.Join(srcBase, item, "a.wsp")
+			img := readFileOrNil(p)
+			n := 350 + r.Intn(650)
+			for len(img) < 16+12*n+4096 {
+				img = append(img, make([]byte, 4096)...)
+			}
+			img[12], img[13], img[14], img[15] = 0, 0, byte(n>>8), byte(n)
+			ioutil.WriteFile(p, img, 0644)
+			expectFail = "source header is corrupt (archive count beyond a page)"
+			c.Count("source_count_beyond_a_page_runs", 1)
+		}
+	case "glob-many-files":
+		// not a fault: copy with a glob over many files and a text output (every file's listing must arrive whole)
+		if cmdName == "copy" {
+			for k := 0; k < 10+r.Intn(8); k++ {
+				writeFixture(filepath.Join(srcBase, item, fmt.Sprintf("g%02d.wsp", k)), l, genContent(r, l, now, 0.8), now)
+			}
+			os.Remove(filepath.Join(srcBase, item, "b.wsp"))
+			for i := range args {
+				if args[i] == "-src" {
+					args[i+1] = "*.wsp"
+				}
+			}
+			globMany = true
+			c.Count("glob_copies_over_many_files", 1)
+		}
 	case "dest-write-fails":
 		// every write of page images to the destination fails with ENOSPC (injected into the command's own pwritev
 		// calls: the device is full). Whether any such write was attempted is read from the injector's log.
@@ -453,6 +502,32 @@ func (c16) Run(c *fw.Ctx) {
 		c.Count("textout_file_checked", 1)
 	}
 	out := parseOutput(outText)
+	if globMany {
+		matched, _ := filepath.Glob(filepath.Join(srcBase, item, "*.wsp"))
+		var torn []string
+		for _, ln := range out.Other {
+			if !strings.HasPrefix(ln, "time:") { // the glob run's own start/finish log lines
+				torn = append(torn, ln)
+			}
+		}
+		if textOut != "" && (len(out.Nows) != len(matched) || len(torn) != 0) {
+			det["now_lines"], det["matched_files"] = len(out.Nows), len(matched)
+			if len(torn) > 0 {
+				det["first_unparsable_line"] = torn[0]
+			}
+			c.Violationf("silent-success:output-incomplete", det, "glob copy over %d files exited 0 but its text output has %d now: lines and %d lines that are no records", len(matched), len(out.Nows), len(torn))
+			return
+		}
+		for _, m := range matched {
+			if !fileExists(filepath.Join(destBase, item, filepath.Base(m))) {
+				c.Violationf("silent-success:copy-effect", det, "glob copy exited 0 but %s was not copied", filepath.Base(m))
+				return
+			}
+		}
+		c.Count("success_effect_checked", 1)
+		c.Nontrivial(fw.JSON(sc))
+		return
+	}
 	stable := res.T0 == res.T1
 	cmdNow := res.T0
 	if len(out.Nows) > 0 {
